@@ -8,6 +8,7 @@ import (
 	"io"
 	"net"
 	"os"
+	"runtime"
 	"sort"
 	"strconv"
 	"strings"
@@ -294,13 +295,18 @@ type ctlEnv struct {
 	fenceSeq uint32
 	tsFirst  string
 	dead     bool
+	quiet    bool // execute events without writing E/O/D lines (valid prefixes of the malformed stream)
 }
+
+type quietCtx struct{ *ctx }
 
 const fencePeer = 100
 
 func (e *ctlEnv) ip(k int) string { return fmt.Sprintf("127.0.%d.%d", e.net, k) }
 
 func newCtlEnv(c *ctx, netn int, peerIDs []int) *ctlEnv {
+	// one CPU per harness process: keeps loopback delivery in send order (see pin.go)
+	pinToCPU(netn % runtime.NumCPU())
 	e := &ctlEnv{c: c, net: netn, peers: map[int]*net.UDPConn{}}
 	logger.Log.SetOutput(io.Discard)
 	logger.Log.ExitFunc = func(int) { atomic.StoreInt32(&e.fatal, 1) }
@@ -809,8 +815,16 @@ func (e *ctlEnv) abstractAddrs(s string) string {
 // executing one event in lock-step
 // ---------------------------------------------------------------------------
 
+type emitter interface{ emit(string, ...interface{}) }
+type nullEmitter struct{}
+
+func (nullEmitter) emit(string, ...interface{}) {}
+
 func (e *ctlEnv) exec(ev *event) (sends map[int][]string, rawSends map[int][][]byte) {
-	c := e.c
+	var c emitter = e.c
+	if e.quiet {
+		c = nullEmitter{}
+	}
 	c.emit("%s", ev.render())
 	sends = map[int][]string{}
 	rawSends = map[int][][]byte{}
@@ -860,6 +874,11 @@ func (e *ctlEnv) exec(ev *event) (sends map[int][]string, rawSends map[int][][]b
 		c.emit("%s", l)
 	}
 	got := e.drain()
+	// second line of defence against reordering across sockets: let the loopback path settle and look again
+	time.Sleep(150 * time.Microsecond)
+	for k, v := range e.drain() {
+		got[k] = append(got[k], v...)
+	}
 	var ks []int
 	for k := range got {
 		ks = append(ks, k)
